@@ -34,6 +34,8 @@ package fsnotify
 //@ pred KWf(w *kqueue) := w.shared != nil && w.watches != nil && w.watches.wd != nil && w.watches.path != nil && w.watches.byDir != nil &&
 //@        w.watches.seen != nil && w.watches.byUser != nil && ref(w.watches.byUser) != ref(w.watches.seen) && w.shared.done != nil &&
 //@        w.Events == w.shared.Events && w.Errors == w.shared.Errors && w.Events != nil && w.Errors != nil && TabOK(w.watches)
+// listedDirs: directories whose entries have been listed and marked as seen (watchDirectoryFiles ran to completion for them)
+//@ ghost listedDirs set[string]
 //@ pred TabOK(ws *watches) := forall(k, int, has(ws.wd, k) ==> ws.wd[k].wd == k) && forall(d, string, has(ws.byDir, d) ==> ws.byDir[d] != nil)
 
 //@ func (w *watches) remove(fd int, path string) (isDir bool)
@@ -140,7 +142,7 @@ package fsnotify
 //@   atcall kqueue.addWatch: arg_flags == noteAllEvents                                                                        [C15 C17]
 
 //@ pred Recorded(w *kqueue) := forall(k, int, has(open, k) && !has(old(open), k) ==> has(w.watches.wd, k)) && forall(k, int, has(old(w.watches.wd), k) ==> has(w.watches.wd, k)) &&
-//@        forall(q, string, has(old(w.watches.seen), q) ==> has(w.watches.seen, q))
+//@        forall(q, string, has(old(w.watches.seen), q) ==> has(w.watches.seen, q)) && subset(old(listedDirs), listedDirs) && subset(old(statted), statted)
 
 //@ func (w *kqueue) addWatch(name string, flags uint32, listDir bool) (res string, err error)
 //@   requires KWf(w) && nolocks()
@@ -148,6 +150,11 @@ package fsnotify
 //@   ensures nolocks()
 //@   ensures Recorded(w)                                                                                                       [C17] "a descriptor opened for a watch is either recorded in the table (so that it is closed when the watch ends) or closed at once"
 //@   ensures err == nil && listDir ==> res == "" || res == filepath.Clean(name)                                                [C18]
+//@   let p = filepath.Clean(name)
+//@   let hadWrite = has(old(w.watches.path), p) && has(old(w.watches.wd), old(w.watches.path)[p]) && old(w.watches.wd)[old(w.watches.path)[p]].dirFlags & unix.NOTE_WRITE != 0
+//@   local info watch
+//@   atreturn err == nil && res != "" && info.isDir && flags & unix.NOTE_WRITE != 0 && !hadWrite ==>
+//@             has(listedDirs, ite(info.linkName != "", info.linkName, res))                                                  [C18] "when a directory starts to be watched for new entries, the entries it already has are listed (and marked as seen) in the same step, so they are never reported as created"
 //@   ensures hist(w.Events) == old(hist(w.Events))                                                                             [C18] "adding a watch on a directory reports nothing for the entries it already has"
 //@   loop 1 "for"
 //@     invariant nolocks() && KWf(w) && open == old(open) && w.watches.wd == old(w.watches.wd) && w.watches.seen == old(w.watches.seen) && hist(w.Events) == old(hist(w.Events))
@@ -161,6 +168,9 @@ package fsnotify
 
 //@ func (w *kqueue) watchDirectoryFiles(dirPath string) (err error)
 //@   requires KWf(w) && nolocks()
+//@   effect listedDirs = ite(err == nil, setAdd(old(listedDirs), dirPath), old(listedDirs))
+//@   ensures err == nil ==> has(listedDirs, dirPath)                                                                            [C18] "a directory that is watched for new entries has had its existing entries listed (and marked as seen) first"
+//@   ensures subset(old(listedDirs), listedDirs)
 //@   ensures KWf(w)
 //@   ensures nolocks() && Recorded(w)                                                                                          [C17]
 //@   ensures hist(w.Events) == old(hist(w.Events))                                                                             [C18] "entries that existed when the watch was added are not reported"
@@ -194,5 +204,9 @@ package fsnotify
 //@   atcall kqueue.remove: arg_name == filepath.Clean(arg_name) ==> arg_name == path.name                                     [C17] "when a watched path is deleted or renamed, the removal is asked for under the name the tables are keyed by (so that its descriptor is closed)"
 //@   loop 1 "for"
 //@     invariant KWf(w) && nolocks() && token(reader) && !closed(w.Events) && !closed(w.Errors)
+//@   ghostvar okIter bool
 //@   loop 2 "for _, kevent := range kevents"
+//@     init okIter = true
 //@     invariant KWf(w) && nolocks() && token(reader) && !closed(w.Events) && !closed(w.Errors)
+//@     invariant okIter                                                                                                          [C18] "after a Remove of a file the name is looked at again, so that a name removed and created again is reported as Remove followed by Create"
+//@     step okIter = !(ok && event.Op & Remove != 0 && !path.isDir) || has(statted, filepath.Clean(event.Name))
